@@ -1010,6 +1010,9 @@ def guard_sig_precise(A, f):
 def site_opsig(A, s):
     """operand signature of a panic-capable site (the index/range/arithmetic operands, the receiver of unwrap, ...)"""
     ops = s.ops or []
+    if s.kind == "call" and re.search(r"::(sort_by|sort_unstable_by|sort_by_key|sort_unstable_by_key|sort_by_cached_key|select_nth_unstable_by|select_nth_unstable_by_key)$", s.what or ""):
+        # what matters at a sort is the comparison, not how the sorted vector was obtained (the comparator's shape is judged by the rule named in the audit)
+        return ["<comparator>"]
     try:
         return [expr_sig(A, o) for o in ops if isinstance(o, list)]
     except Exception as e:      # never let the signature hide a site
